@@ -457,8 +457,58 @@ class ItertoolsModel:
     def chain(self, *iterables):
         return [y for x in iterables for y in self._it.iterate(x, None)]
 
+    def accumulate(self, iterable, func=None, *, initial=None):
+        items = list(self._it.iterate(iterable, None))
+        out = []
+        if initial is not None:
+            acc = initial
+            out.append(acc)
+        elif items:
+            acc, items = items[0], items[1:]
+            out.append(acc)
+        else:
+            return out
+        for x in items:
+            acc = self._it.call(func, [acc, x], {}, None) if func is not None else self._it.binop(ast.Add(), acc, x, None)
+            out.append(acc)
+        return out
+
+    def starmap(self, f, iterable):
+        return [self._it.call(f, list(self._it.iterate(x, None)), {}, None) for x in self._it.iterate(iterable, None)]
+
+    def islice(self, iterable, *a):
+        import itertools
+        return list(itertools.islice(list(self._it.iterate(iterable, None)), *a))
+
+    def repeat(self, x, times=None):
+        if times is None:
+            raise Unsupported("itertools.repeat without a count")
+        return [x] * int(times)
+
+    def zip_longest(self, *its, fillvalue=None):
+        import itertools
+        return list(itertools.zip_longest(*[list(self._it.iterate(i, None)) for i in its], fillvalue=fillvalue))
+
+    def pairwise(self, iterable):
+        xs = list(self._it.iterate(iterable, None))
+        return list(zip(xs, xs[1:]))
+
     def __getattr__(self, k):
         raise Unsupported("itertools.%s is not modelled" % k)
+
+
+class CollectionsModel:
+    """`collections`: namedtuple is Python's own (its instances are tuples: unpacking, indexing, iteration, fields by name)."""
+
+    @staticmethod
+    def namedtuple(typename, field_names, *, rename=False, defaults=None, module=None):
+        import collections
+        return collections.namedtuple(_pstr(typename) if not isinstance(typename, str) else typename, field_names, rename=rename, defaults=defaults)
+
+    OrderedDict = dict
+
+    def __getattr__(self, k):
+        raise Unsupported("collections.%s is not modelled" % k)
 
 
 class MathModel:
@@ -482,6 +532,7 @@ class Interp:
         self.summaries = summaries or {}
         self.trace_calls = None  # optional callback(fobj, args) for rules
         self.branch_oracle = None  # optional callback(stub, node) -> bool for branches on unmodelled library values
+        self.yields = []         # stack of lists: values yielded by the generator functions being run
         self.check_beartype = True
         self.cur = []            # stack of (module, node) being evaluated
         self.series_sites = []   # (module, lineno, key, squared, argument poly)
@@ -540,6 +591,8 @@ class Interp:
                     env[nm] = NP if a.name == "numpy" else Stub(a.name)
                 elif top == "math":
                     env[nm] = MathModel()
+                elif a.name == "collections":
+                    env[nm] = CollectionsModel()
                 elif a.name in ("operator", "functools", "itertools"):
                     env[nm] = {"operator": OperatorModel, "functools": FunctoolsModel, "itertools": ItertoolsModel}[a.name](self)
                 elif a.name == "pathlib":
@@ -599,6 +652,8 @@ class Interp:
                 env[nm] = getattr(NP, a.name)
             elif mod == "fractions":
                 env[nm] = Fraction if a.name == "Fraction" else Stub(a.name)
+            elif mod == "collections":
+                env[nm] = getattr(CollectionsModel(), a.name)
             elif mod in ("operator", "functools", "itertools"):
                 env[nm] = getattr({"operator": OperatorModel, "functools": FunctoolsModel, "itertools": ItertoolsModel}[mod](self), a.name)
             elif mod == "pathlib":
@@ -792,6 +847,25 @@ class Interp:
 
     def def_class(self, st, env, module):
         bases = [self.ev(b, env, module) for b in st.bases]
+        if any(isinstance(b, TypingName) and b.name == "NamedTuple" for b in bases):
+            # class X(NamedTuple): a: T; b: T = default  ->  Python's own namedtuple (fields in declaration order)
+            import collections
+            fields, defaults = [], []
+            for b_ in st.body:
+                if isinstance(b_, ast.AnnAssign) and isinstance(b_.target, ast.Name):
+                    fields.append(b_.target.id)
+                    if b_.value is not None:
+                        defaults.append(self.ev(b_.value, env, module))
+                    elif defaults:
+                        raise InterpRaise("TypeError", "non-default namedtuple field follows default field", st, module=module)
+                elif isinstance(b_, ast.Expr) and isinstance(b_.value, ast.Constant):
+                    continue
+                elif isinstance(b_, ast.Pass):
+                    continue
+                else:
+                    raise Unsupported("NamedTuple class with methods or other statements", b_, module)
+            env[st.name] = collections.namedtuple(st.name, fields, defaults=defaults or None)
+            return
         ns = Env({}, env)
         c = ClassObj(st.name, bases, ns, module, st)
         ns.class_obj = c
@@ -963,6 +1037,10 @@ class Interp:
             found, v = env.lookup(n.id)
             if found:
                 return v
+            if n.id == "map":
+                return lambda f_, *its: [self.call(f_, list(x), {}, n) for x in zip(*[self.iterate(i_, n) for i_ in its])]
+            if n.id == "filter":
+                return lambda f_, it_: [x for x in self.iterate(it_, n) if (self.truth(self.call(f_, [x], {}, n), n) if f_ is not None else self.truth(x, n))]
             if n.id in BUILTINS:
                 return BUILTINS[n.id]
             if hasattr(_builtins_mod, n.id):
@@ -1039,7 +1117,7 @@ class Interp:
                 if k is None:
                     out.update(self.ev(v, env, module))
                 else:
-                    out[self.ev(k, env, module)] = self.ev(v, env, module)
+                    out[_unmodel_type(self.ev(k, env, module))] = self.ev(v, env, module)
             return out
         if t is ast.ListComp:
             out = []
@@ -1075,6 +1153,16 @@ class Interp:
                 else:
                     parts.append(v.value if isinstance(v, ast.Constant) else "<fstring>")
             return "".join(parts)
+        if t is ast.Yield:
+            if not self.yields:
+                raise Unsupported("yield outside a generator call", n)
+            self.yields[-1].append(self.ev(n.value, env, module) if n.value is not None else None)
+            return None
+        if t is ast.YieldFrom:
+            if not self.yields:
+                raise Unsupported("yield from outside a generator call", n)
+            self.yields[-1].extend(self.iterate(self.ev(n.value, env, module), n))
+            return None
         if t is ast.IfExp:
             return self.ev(n.body if self.truth(self.ev(n.test, env, module), n.test) else n.orelse, env, module)
         if t is ast.Starred:
@@ -1127,6 +1215,7 @@ class Interp:
             except TypeError as e:
                 raise InterpRaise("TypeError", str(e), n)
         if isinstance(o, dict):
+            k = _unmodel_type(k)
             try:
                 return o[k]
             except KeyError:
@@ -1188,7 +1277,8 @@ class Interp:
                 return Stub("(%s cmp %s)" % (getattr(l, "_name", "value"), getattr(r, "_name", "value")))     # decided by the oracle when branched on
             raise Unsupported("comparison with unmodelled value", n)
         f = {ast.Eq: O.eq, ast.NotEq: O.ne, ast.Lt: O.lt, ast.LtE: O.le, ast.Gt: O.gt, ast.GtE: O.ge, ast.Is: O.is_, ast.IsNot: O.is_not,
-             ast.In: lambda a, b: a in b, ast.NotIn: lambda a, b: a not in b}[type(op)]
+             ast.In: lambda a, b: _unmodel_type(a) in b if isinstance(b, dict) else a in b,
+             ast.NotIn: lambda a, b: _unmodel_type(a) not in b if isinstance(b, dict) else a not in b}[type(op)]
         try:
             return f(l, r)
         except TypeError as e:
@@ -1322,7 +1412,7 @@ class Interp:
                 nm = a.symname if a.key[1] is None else "%s_%d" % (a.symname, a.key[1])
                 return lambda: nm
             raise Unsupported("SX attribute .%s is not modelled" % k, n)
-        if isinstance(o, (cm.FunctionVal, cm.CodeGeneratorVal, cm.SeriesDict, cm.MatClass, NPModel, MathModel, PathVal, PathlibModel, OsModel, OsPathModel, NativeModel, OperatorModel, FunctoolsModel, ItertoolsModel)) or o is CA or o is cm.SparsityNS:
+        if isinstance(o, (cm.FunctionVal, cm.CodeGeneratorVal, cm.SeriesDict, cm.MatClass, NPModel, MathModel, PathVal, PathlibModel, OsModel, OsPathModel, NativeModel, OperatorModel, FunctoolsModel, ItertoolsModel, CollectionsModel)) or o is CA or o is cm.SparsityNS:
             try:
                 return getattr(o, k)
             except AttributeError:
@@ -1378,6 +1468,10 @@ class Interp:
         if isinstance(o, tuple):
             if k in ("index", "count"):
                 return getattr(o, k)
+            if hasattr(type(o), "_fields") and (k in type(o)._fields or k in ("_fields", "_replace", "_asdict", "_field_defaults")):
+                return getattr(o, k)
+        if isinstance(o, type) and issubclass(o, tuple) and hasattr(o, "_fields") and k in ("_fields", "_make", "_field_defaults", "__name__"):
+            return getattr(o, k)
         if isinstance(o, (Fraction, int)):
             if k in ("numerator", "denominator", "real", "imag"):
                 return getattr(o, k)
@@ -1532,10 +1626,20 @@ class Interp:
             if isinstance(f.node, ast.Lambda):
                 return self.ev(f.node.body, scope, f.module)
             ret = None
+            is_gen = getattr(f, "_is_gen", None)
+            if is_gen is None:
+                is_gen = f._is_gen = _has_own_yield(f.node)
+            if is_gen:
+                # a generator function: run to completion and hand back what it yielded, in order (the callers iterate it;
+                # laziness is not observable for the pure builders this interpreter is given)
+                self.yields.append([])
             try:
                 self.exec_block(f.node.body, scope, f.module)
             except _Return as r:
                 ret = r.v
+            finally:
+                if is_gen:
+                    ret = self.yields.pop()
             if f.beartyped and self.check_beartype and f.node.returns is not None:
                 self.beartype_return(f, ret, scope, n)
             return ret
@@ -1702,6 +1806,25 @@ def _len(x):
     if isinstance(x, Stub):
         raise Unsupported("len() of unmodelled value")
     return len(x)
+
+
+def _unmodel_type(k):
+    """the builtin names int / float / str are model functions here; as dictionary keys (exact-type tables) they stand for
+    the Python types that type(x) returns"""
+    return {id(_int): int, id(_float): float, id(_str): str}.get(id(k), k)
+
+
+def _has_own_yield(fn_node):
+    """fn_node's own body contains yield (nested function definitions and lambdas not counted)"""
+    stack = list(getattr(fn_node, "body", [])) if not isinstance(getattr(fn_node, "body", None), ast.AST) else []
+    while stack:
+        x = stack.pop()
+        if isinstance(x, (ast.Yield, ast.YieldFrom)):
+            return True
+        if isinstance(x, (ast.FunctionDef, ast.AsyncFunctionDef, ast.Lambda, ast.ClassDef)):
+            continue
+        stack.extend(ast.iter_child_nodes(x))
+    return False
 
 
 def _str(x=""):
